@@ -1440,6 +1440,7 @@ package flags
 //@   loop 6 invariant[C17] (c == p.Command ==> !printcmd && !aligninfo.indent) && (c != p.Command ==> printcmd || aligninfo.indent)
 //@   loop 7 invariant[C17] (c == p.Command ==> !printcmd && !aligninfo.indent) && (c != p.Command ==> printcmd || aligninfo.indent)
 //@   loop 8 invariant[C16] unfold(nDesc(c.args, idx_8 + 1)) && unfold(nDesc(c.args, 0)) && len(args) == nDesc(c.args, idx_8) && forall(a, 0, len(args), args[a].Description != "")
+//@   loop 8 exit[C16] len(args) == nDesc(c.args, len(c.args))
 //@   loop 8 invariant[C17] use(eag_elem, root, cnt_5, 0) && use(eg_nonempty, c.Group) && forall(a, 0, len(args), argWidth(args[a]) + ite(c != p.Command, 4, 0) <= aligninfo.maxLongLen)
 //@   loop 9 invariant[C17] forall(a, 0, len(args), argWidth(args[a]) + ite(c != p.Command, 4, 0) <= aligninfo.maxLongLen)
 //@   at[C17] call Parser.writeHelpOption #1: use(eag_elem, root, cnt_5, idx_6)
